@@ -386,7 +386,7 @@ func forge(in forgeIn) (sig, msg []byte, ok bool) {
 }
 
 // sVariants lists the alterations of S of the property's quantifier.
-var sKinds = []string{"S+L", "L-1", "L", "2^k", "all-ones", "top-octet", "S+2L", "0"}
+var sKinds = []string{"S+L", "L-1", "L", "2^k", "all-ones", "top-octet", "S+2L", "0", "S+kL", "S+kL", "S+kL"}
 
 func alterS(t *rapid.T, c *edwards.Curve, sig []byte) ([]byte, string) {
 	n := c.EncLen
@@ -399,6 +399,26 @@ func alterS(t *rapid.T, c *edwards.Curve, sig []byte) ([]byte, string) {
 		v = new(big.Int).Add(S, c.L)
 	case "S+2L":
 		v = new(big.Int).Add(S, new(big.Int).Lsh(c.L, 1))
+	case "S+kL":
+		// every value congruent to S that fits the scalar encoding: k <= 15 (Ed25519, 256 bits),
+		// k <= 1023 (Ed448, 456 bits; for k = 4j the low 448 bits stay below L and only octet 56 tells)
+		kmax := 15
+		if n == 57 {
+			kmax = 1023
+		}
+		var k int
+		switch pick(t, 3, "kmode") {
+		case 0:
+			k = 1 + pick(t, 8, "ksmall")
+		case 1:
+			k = 4 * (1 + pick(t, kmax/4, "kfour"))
+		default:
+			k = 1 + pick(t, kmax, "kany")
+		}
+		v = new(big.Int).Add(S, new(big.Int).Mul(big.NewInt(int64(k)), c.L))
+		if k%4 == 0 {
+			kind = "S+4jL"
+		}
 	case "L-1":
 		v = new(big.Int).Sub(c.L, big.NewInt(1))
 	case "L":
@@ -743,8 +763,8 @@ func TestC05Special(t *testing.T) {
 		sub := "special/" + s.Name
 		sp := specials(c)
 		if vlib.Shard == 0 {
-			vlib.Exhaustive("C05 small-order public keys in every encoding (canonical, y+p, x=0 with sign bit, Ed448 last-octet junk) x {R=[r]B, R small order with S=0, same with S=L}: "+s.Name,
-				int64(3*len(sp)), "all shards together; each with a signature satisfying the group equation under permissive decoding")
+			vlib.Exhaustive("C05 small-order public keys in every encoding (canonical, y+p, x=0 with sign bit, Ed448 last-octet junk) x {R=[r]B, R small order with S=0, same with S=L, same with S=4L}: "+s.Name,
+				int64(4*len(sp)), "all shards together; each with a signature satisfying the group equation under permissive decoding")
 		}
 		ctx := []byte(nil)
 		if s.Dom {
@@ -765,6 +785,8 @@ func TestC05Special(t *testing.T) {
 			evaluate(t, sub, s, "small-order-A-and-R/"+e.label, e.enc, m2, sig, ctx)
 			sigL := append(append([]byte{}, sig[:c.EncLen]...), vlib.LE(c.L, c.EncLen)...)
 			evaluate(t, sub, s, "small-order-A-and-R,S=L/"+e.label, e.enc, m2, sigL, ctx)
+			sig4L := append(append([]byte{}, sig[:c.EncLen]...), vlib.LE(new(big.Int).Lsh(c.L, 2), c.EncLen)...)
+			evaluate(t, sub, s, "small-order-A-and-R,S=4L/"+e.label, e.enc, m2, sig4L, ctx)
 			if t.Failed() {
 				return
 			}
